@@ -3,6 +3,7 @@ package props
 import (
 	"context"
 	"fmt"
+	"io"
 	"math/rand/v2"
 	"net"
 	"os"
@@ -341,6 +342,59 @@ func genC08(env *core.Env, emit func(core.Case)) {
 			env.Count("bytesweep/" + dir)
 		}
 	}
+	// a backend whose writes never end on a record boundary (each carries the tail of one record and the
+	// first byte of the next), for megabytes: what the Conn holds stays within one record
+	for _, accepted := range []bool{true, false} {
+		idx++
+		keys, rec, _, _ := c07Hello(r, accepted)
+		sink := &discardConn{in: rec}
+		w := ""
+		conn, err := ech.NewConn(context.Background(), sink, ech.WithKeys(keys))
+		if err != nil {
+			w = "NewConn failed: " + err.Error()
+		} else {
+			var stream []byte
+			stream = append(stream, gen.ServerHelloRecord(r, false, gen.RandBytes(r, 32))...)
+			stream = append(stream, gen.Record(20, 0x0303, []byte{1})...)
+			body := gen.RandBytes(r, 16000)
+			for len(stream) < 6<<20 {
+				stream = append(stream, gen.Record(23, 0x0303, body)...)
+			}
+			runtime.GC()
+			var m0, m1 runtime.MemStats
+			runtime.ReadMemStats(&m0)
+			// cut points: one byte into each record
+			pos := 0
+			next := 0
+			for pos < len(stream) {
+				n := 5 + (int(stream[next+3])<<8 | int(stream[next+4]))
+				end := min(next+n+1, len(stream)) // through the first byte of the following record
+				if _, werr := conn.Write(stream[pos:end]); werr != nil {
+					w = "Write failed on a legal record stream: " + werr.Error()
+					break
+				}
+				pos = end
+				next += n
+				if next >= len(stream) {
+					break
+				}
+			}
+			runtime.GC()
+			runtime.ReadMemStats(&m1)
+			runtime.KeepAlive(stream) // (alive at both measurements: what is compared is what the Conn holds)
+			if grown := int64(m1.HeapAlloc) - int64(m0.HeapAlloc); w == "" && grown > 1<<20 {
+				w = fmt.Sprintf("after %d MB written in writes that never end on a record boundary the Conn still holds %d KB more than before", len(stream)>>20, grown>>10)
+			}
+			if w == "" && sink.out != int64(len(stream))-int64(len(stream)-pos) && sink.out < int64(pos)-16700 {
+				w = fmt.Sprintf("%d bytes written, only %d forwarded", pos, sink.out)
+			}
+			runtime.KeepAlive(conn)
+		}
+		emit(core.Case{Name: fmt.Sprintf("write-balloon/%d", idx), Stream: "write-balloon", Key: "write-balloon",
+			Ops: []core.Op{{Kind: 'X', Note: "write side holds at most one incomplete record, however the backend's writes are cut", Want: w}},
+			Sig: fmt.Sprintf("write-balloon/acc%v", accepted), Sample: map[string]any{"mutator": "write-balloon", "accepted": accepted}})
+		env.Count("write-balloon")
+	}
 	// stall at every byte offset of the first record under a deadline; heap growth
 	{
 		_, sealed := validTuple()
@@ -581,3 +635,25 @@ func repeatU16(pat []uint16, n int) []uint16 {
 	}
 	return out
 }
+
+// discardConn hands out one buffer of client bytes, then EOF; what is written to it is counted and dropped.
+type discardConn struct {
+	in  []byte
+	out int64
+}
+
+func (d *discardConn) Read(b []byte) (int, error) {
+	if len(d.in) == 0 {
+		return 0, io.EOF
+	}
+	n := copy(b, d.in)
+	d.in = d.in[n:]
+	return n, nil
+}
+func (d *discardConn) Write(b []byte) (int, error)        { d.out += int64(len(b)); return len(b), nil }
+func (d *discardConn) Close() error                       { return nil }
+func (d *discardConn) LocalAddr() net.Addr                { return &net.TCPAddr{} }
+func (d *discardConn) RemoteAddr() net.Addr               { return &net.TCPAddr{} }
+func (d *discardConn) SetDeadline(t time.Time) error      { return nil }
+func (d *discardConn) SetReadDeadline(t time.Time) error  { return nil }
+func (d *discardConn) SetWriteDeadline(t time.Time) error { return nil }
